@@ -84,7 +84,7 @@ func cmpEdges(fn *ssa.Function, a, b func(ssa.Value) bool, wantEqual bool) []Edg
 }
 
 func pathIs(p string) func(ssa.Value) bool {
-	return func(v ssa.Value) bool { return pathOf(v) == p }
+	return func(v ssa.Value) bool { return pathOf(v) == bp(p) }
 }
 
 func pathEnds(suf string) func(ssa.Value) bool {
@@ -192,3 +192,68 @@ func enclosingRangeHeader(b *ssa.BasicBlock) *ssa.BasicBlock {
 	}
 	return best
 }
+
+// ---------------------------------------------------------------------------------------------
+// identifier binding: rule tables are written with logical names ("in", "trx", "leaf"); before a row
+// is evaluated they are bound to the actual identifiers of the function under analysis, so that
+// renaming a parameter or local variable never changes a verdict.
+
+type binder struct {
+	m map[string]string
+}
+
+var curBinder *binder
+
+// bindNames builds a binder: spec maps a logical name to "param:N" (N counts the receiver as 0),
+// "recv", or "result:<callee suffix>" (the variable holding result #0 of the first such call).
+func bindNames(fn *ssa.Function, spec map[string]string) *binder {
+	b := &binder{m: map[string]string{}}
+	for logical, how := range spec {
+		switch {
+		case how == "recv":
+			if len(fn.Params) > 0 {
+				b.m[logical] = fn.Params[0].Name()
+			}
+		case strings.HasPrefix(how, "param:"):
+			var n int
+			fmt.Sscanf(how, "param:%d", &n)
+			if n < len(fn.Params) {
+				b.m[logical] = fn.Params[n].Name()
+			}
+		case strings.HasPrefix(how, "result:"):
+			suf := strings.TrimPrefix(how, "result:")
+			for _, c := range callsTo2(fn, suf) {
+				rv := resultAt(c, 0)
+				if rv == nil {
+					continue
+				}
+				name := pathOf(rv)
+				for _, ref := range *rv.Referrers() {
+					if st, ok := ref.(*ssa.Store); ok && st.Val == rv {
+						name = pathOf(st.Addr)
+					}
+				}
+				b.m[logical] = name
+				break
+			}
+		}
+	}
+	return b
+}
+
+// P substitutes the leading logical name of a path template.
+func (b *binder) P(tmpl string) string {
+	if b == nil {
+		return tmpl
+	}
+	head, rest := tmpl, ""
+	if i := strings.Index(tmpl, "."); i >= 0 {
+		head, rest = tmpl[:i], tmpl[i:]
+	}
+	if actual, ok := b.m[head]; ok {
+		return actual + rest
+	}
+	return tmpl
+}
+
+func bp(tmpl string) string { return curBinder.P(tmpl) }
